@@ -202,8 +202,11 @@ class C05(Prop):
             elif r < 0.65 and sh[d] >= 1:
                 ps = [rng.randrange(sh[d]) for _ in range(rng.randint(1, 3))]
                 steps.append(["take", k, d, ps]); shapes.append(sh[:d] + [len(ps)] + sh[d + 1:])
-            elif r < 0.72:
+            elif r < 0.70:
                 steps.append(["transpose", k]); shapes.append(sh[::-1])
+            elif r < 0.74 and sh[d] >= 2:
+                # sorted by a key whose order is not the natural order of the labels
+                steps.append(["sort_key", k, d, rng.choice([2, 4, 6])]); shapes.append(list(sh))
             elif r < 0.78:
                 steps.append(["copy", k]); shapes.append(list(sh))
             elif r < 0.9 and sh[d] >= 1:
@@ -274,6 +277,9 @@ class C05(Prop):
                         env.append(a.take(list(st[3]), axis=st[2], indexing="position"))
                     elif t == "transpose":
                         env.append(a.transpose())
+                    elif t == "sort_key":
+                        ctr = st[3]
+                        env.append(a.sort_axis(axis=st[2], key=lambda x: abs(float(x) - ctr)))
                     elif t == "copy":
                         env.append(a.copy())
                     elif t == "relabel":
@@ -281,7 +287,7 @@ class C05(Prop):
                     elif t == "sort_inplace":
                         pass
             except Exception:
-                if t in ("slice", "take", "transpose", "copy"):
+                if t in ("slice", "take", "transpose", "copy", "sort_key"):
                     env.append(a)
         # probes: every live array against a freshly constructed equal array
         out = []
